@@ -718,6 +718,49 @@ def setitemColl (td : TD) (idx : PyIndex) (isDict : Bool) (vb : Shape) (entries 
   let (k, shapes) ← collPlan isDict vb ibs entries
   (entries.zip shapes).mapM (fun (e, sh) => entryWriteK td ibs idx'.items k e sh)
 
+/-- the `j`-th nested tensordict seen as a tensordict of its own (batch `bs ++ extra`) -/
+def TD.nestedAsTd (td : TD) (j : Nat) : Option TD :=
+  (td.nested[j]?).map (fun nd => { bs := td.bs ++ nd.extra, names := none, leaves := nd.leaves, nested := [] })
+
+/-- forget the `k` leading coordinates `expand` added to the items -/
+def dropWritten (k : Nat) (ws : List EntryWrite) : List EntryWrite :=
+  ws.map (fun w => { w with written := fun c => (w.written c).map (·.drop k) })
+
+/-- the leaves of the child after the batch handling: `expand` (k > 0) expands them too -/
+def childEntries (k : Nat) (vb ibs : Shape) (entries : List VEntry) : List VEntry :=
+  if k = 0 then entries else entries.map (fun e => { e with shape := ibs ++ e.shape.drop vb.length })
+
+/-- what the batch handling of `__setitem__` does to a nested child (batch `vb ++ cbx`, leaves `entries`) of the value:
+    nothing when the batches agree; `expand` expands the child too; `value.batch_size = indexed_bs`
+    (`_check_new_batch_size` / `_batch_size_setter_checked`) gives a child with FEWER batch dims the new batch size, provided
+    its own leaves start with it, and otherwise requires the child's batch to start with the new batch size -/
+def childBatch (vb ibs cbx : Shape) (entries : List VEntry) : Except Err (Nat × Shape) :=
+  if vb = ibs then .ok (0, vb ++ cbx)
+  else if vb = (if vb.length = 0 then ibs else ibs.drop (ibs.length - vb.length)) then .ok (ibs.length - vb.length, ibs ++ cbx)
+  else if (vb ++ cbx).length < ibs.length then
+    (if entries.all (fun e => hasPrefix ibs e.shape) then .ok (0, ibs) else .error .runtime)
+  else if hasPrefix ibs (vb ++ cbx) then .ok (0, vb ++ cbx) else .error .runtime
+
+/-- `td[idx] = value` where `value` is a TensorDict (batch `vb`) holding ONE nested tensordict under the key of the `j`-th nested
+    entry of `td`; the child has batch `vb ++ cbx` and the entries `entries` (targets: leaves of the nested entry).
+    `__setitem__` handles the batch of `value` (`childBatch`: `expand` and the batch-size assignment act on children too), then `_set_at_str(key, child, idx)` → `_set_item` → `nested[idx] = child`:
+    the same `__setitem__` on the nested tensordict, with the already converted index. -/
+def setitemCollNested (td : TD) (idx : PyIndex) (vb : Shape) (j : Nat) (cbx : Shape) (entries : List VEntry) :
+    Except Err (List EntryWrite) := do
+  let idx' ← (match idx with
+    | .single .ell => convertEllipsis idx td.bs.length
+    | .single _ => .ok idx
+    | .tuple l => if l.any (· = .ell) then convertEllipsis idx td.bs.length else .ok idx)
+  checkIndexNdim idx' td.bs.length
+  let ibs ← getitemBatchSize td.bs idx'
+  let (k, cb) ← childBatch vb ibs cbx entries     -- cb: batch of the child when it reaches the nested tensordict
+  -- `value.expand(indexed_bs)` expands the leaves of the child as well (k > 0: k leading coordinates are new)
+  let entries' := childEntries k vb ibs entries
+  match td.nestedAsTd j with
+  | none => .error .runtime
+  | some ntd =>
+    (setitemColl ntd idx' false cb entries').map (dropWritten k)
+
 /-! `_SubTensorDict`: a tensordict that only sees an index of the entries of its source -/
 
 /-- a `_SubTensorDict` after `__init__`: the normalised index and the batch size -/
